@@ -46,7 +46,8 @@ theorem C10_adapter_remove_after_return_reaches_subscription (uo : Bool) (p : PC
 /-- End of a backpressure single-item subscription (any adapter shape, every schedule): from the step in which a
 REMOVE of the item is handed to the subscription on, the subscription has ended (`pidDone`: its channel is closed),
 or the subscriber has cancelled, or the REMOVE sits in the forwarder's hand as the next thing the PullID stage will
-see — it is never dropped, overtaken or merged away. -/
+see — it is never dropped, overtaken or merged away.  `p.Plain`: a backpressure PullID pipeline whose forwarder filter
+(`WithInclude`, the collection's equivalence) is ARBITRARY except that it never drops a REMOVE of the watched item. -/
 theorem C10_adapter_remove_in_flight (sync uo : Bool) (p : PConfig) (hp : p.Plain) (sched : List LMove) :
     let c := lrun (linit sync uo p) sched
     c.removed = true → c.p.InFlight :=
@@ -121,6 +122,52 @@ theorem C10_lossy_single_item_remove_never_merged_away (sync uo fixed : Bool) (t
     have hmem : m ∈ c.p.exQ := List.mem_of_find?_eq_some he
     have hid : m.id = c.p.target := by simpa using List.find?_some he
     exact Or.inr (Or.inr (Or.inl ⟨m, hmem, hid, hk⟩))
+
+/-- … under ANY include filter and ANY equivalence of the collection (`WithInclude`, `WithEquivalence`,
+`WithMessageEquivalence`, `WithNoDuplicates`: the forwarder's `keep` is an arbitrary predicate on changes) that never
+drops a REMOVE of the watched item — as no comparer does that, like `cmp.Equal`, does not relate a message to the
+absent new value of a REMOVE.  Changes of the item that the filter drops (duplicates, excluded values) do not matter:
+whenever the item is gone, the subscription has ended, was cancelled, or the REMOVE is queued / in the forwarder's
+hand. -/
+theorem C10_lossy_remove_never_lost_under_any_filter (sync uo fixed : Bool) (target : Nat) (keep : Msg → Bool)
+    (hk : ∀ tag, keep ⟨target, .remove, tag⟩ = true) (sched : List LMove) :
+    let c := lrun (lsubscribedK sync uo target fixed keep) sched
+    c.present = false →
+      c.p.pidDone = true ∨ c.p.cancelled = true ∨
+      (∃ m ∈ c.p.exQ, m.id = c.p.target ∧ m.kind = .remove) ∨ c.p.RemoveInHand := by
+  intro c hgone
+  have hI : LLossy c := llossy_run _ sched (llossy_initK sync uo target fixed keep hk)
+  cases he : ent c.p.target c.p.exQ with
+  | none =>
+    rcases hI.w (Or.inl ⟨he, hgone⟩) with h | h | h
+    · exact Or.inl h
+    · exact Or.inr (Or.inl h)
+    · exact Or.inr (Or.inr (Or.inr h))
+  | some m =>
+    have hk : m.kind = .remove := (hI.wf m he).mpr hgone
+    have hmem : m ∈ c.p.exQ := List.mem_of_find?_eq_some he
+    have hid : m.id = c.p.target := by simpa using List.find?_some he
+    exact Or.inr (Or.inr (Or.inl ⟨m, hmem, hid, hk⟩))
+
+/-- The hypothesis is what the code must provide.  An equivalence that DOES relate the old value of a REMOVE to its
+absent new value (a comparer wrapper that reads nil as the empty message, on an item whose view is empty) makes the
+forwarder drop the REMOVE: there is a schedule — subscribe, return, the seed received, delete — after which the REMOVE
+was handed to the subscription (`removed`) and is nowhere: nothing queued, nothing in flight, the channel open, not
+cancelled, and no step of the subscription's goroutines enabled.  It ends only if the subscriber cancels. -/
+theorem C10_equivalence_relating_remove_to_nil_never_ends :
+    ∃ (p : PConfig) (sched : List LMove), p.hasEx = false ∧ p.hasPid = true ∧
+      (∀ m, m.kind ≠ .remove → p.keep m = true) ∧
+      let c := lrun (linit true false p) sched
+      c.returned = true ∧ c.present = false ∧ c.removed = true ∧ c.missed = false ∧
+      c.p.fwQ = [] ∧ c.p.pidQ = [] ∧ c.p.out = [⟨p.target, .add, 0⟩] ∧ c.p.outClosed = false ∧ c.p.cancelled = false ∧
+      ∀ m : PMove, m ≠ .cancel → lstep c (.pipe m) = none := by
+  refine ⟨{ hasEx := false, exMerge := false, hasPid := true, target := 7, fixed := true,
+            keep := fun m => match m.kind with | .remove => false | _ => true },
+    [.sub, .ret, .pipe .xferFP, .pipe .consume, .del], rfl, rfl, ?_, rfl, rfl, rfl, rfl, rfl, rfl, rfl, rfl, rfl, ?_⟩
+  · intro m hm
+    cases hk : m.kind <;> simp_all
+  · intro m hm
+    cases m <;> first | rfl | exact absurd rfl hm
 
 /-- … and a queued change does not sit there for ever: while the merge stage holds something and nothing has
 ended, a step of the subscription's goroutines or of the subscriber is enabled (the merge stage hands over, the
